@@ -237,6 +237,10 @@ func AssembleFile(ctx context.Context, name string, idx Index, s Store, seeds []
 	for {
 		validatingPrefix := fmt.Sprintf("Attempt %d: Validating ", attempt)
 		if err := plan.Validate(ctx, options.N, NewProgressBar(validatingPrefix)); err != nil {
+			if _, ok := err.(Interrupted); ok {
+				// The validation didn't complete, that says nothing about the seeds
+				return stats, err
+			}
 			// This plan has at least one invalid seed
 			switch options.InvalidSeedAction {
 			case InvalidSeedActionBailOut:
@@ -267,15 +271,24 @@ func AssembleFile(ctx context.Context, name string, idx Index, s Store, seeds []
 	pb.Start()
 	defer pb.Finish()
 
+	var interrupted bool
 loop:
 	for _, segment := range plan {
 		select {
 		case <-ctx.Done():
+			interrupted = true
 			break loop
 		case in <- Job{segment.indexSegment, segment.source}:
 		}
 	}
 	close(in)
 
-	return stats, g.Wait()
+	if err := g.Wait(); err != nil {
+		return stats, err
+	}
+	if interrupted {
+		// Not all segments were handed to the workers, the file is incomplete
+		return stats, Interrupted{}
+	}
+	return stats, nil
 }
